@@ -2,14 +2,21 @@
    Proved here against the independent specification decoder (sdec): for every accepted operation sequence
    and EVERY keep-mask that withholds only packets returned as droppable (the 2^k subsets are quantified,
    not enumerated), the remaining packets decode to exactly the messages of the kept packets.
-   The library's own deserializer is tied to sdec by C06 (refinement) and by the correspondence check. *)
-From RML Require Import Model.Base Model.Chunk Model.ChunkSer Spec.ChunkSpec Proofs.ChunkSerProofs.
+   C08_drop_own_deserializer: the same for the library's own deserializer, under every partition of the remaining bytes
+   (composition with the refinement C06 and partition independence C15). *)
+From RML Require Import Model.Base Model.Chunk Model.ChunkSer Model.ChunkDe Spec.ChunkSpec Proofs.ChunkSerProofs Proofs.ChunkEndToEnd.
 Local Open Scope N_scope.
 
 Theorem C08_drop : forall ops keep packets st',
   Forall op_wf ops -> ser_run ser_init ops = Ok (packets, st') -> keep_ok keep ops ->
   sdec (concat (select keep packets)) = SOk (map op_msg (select keep ops)).
 Proof. exact ser_sdec_drop. Qed.
+
+Theorem C08_drop_own_deserializer : forall ops keep packets st' pieces,
+  Forall op_wf ops -> ser_run ser_init ops = Ok (packets, st') -> keep_ok keep ops ->
+  concat pieces = concat (select keep packets) ->
+  exists s1, feed_all de_init pieces [] = (s1, map op_msg (select keep ops), None).
+Proof. exact roundtrip_any_partition. Qed.
 
 Example C08_example :
   match ser_run ser_init example_ops with
@@ -19,3 +26,4 @@ Example C08_example :
 Proof. exact example_run. Qed.
 
 Print Assumptions C08_drop.
+Print Assumptions C08_drop_own_deserializer.
